@@ -49,6 +49,11 @@ var guardTable = []guardSpec{
 	{"packet", "Host", "SSDPName", row, row, "Update*Name"},
 	{"packet", "Host", "LLMNRName", row, row, "Update*Name"},
 	{"packet", "Host", "NBNSName", row, row, "Update*Name"},
+	{"packet", "MACEntry", "DHCP4Name", row, row, "merged by Update*Name, read by toNotification, under the row lock"},
+	{"packet", "MACEntry", "MDNSName", row, row, "merged by Update*Name, read by toNotification, under the row lock"},
+	{"packet", "MACEntry", "SSDPName", row, row, "merged by Update*Name, read by toNotification, under the row lock"},
+	{"packet", "MACEntry", "LLMNRName", row, row, "merged by Update*Name, read by toNotification, under the row lock"},
+	{"packet", "MACEntry", "NBNSName", row, row, "merged by Update*Name, read by toNotification, under the row lock"},
 	{"arp_spoofer", "Handler", "huntList", []string{"Handler.arpMutex"}, []string{"Handler.arpMutex"}, "hunt list"},
 	{"arp_spoofer", "Handler", "closed", []string{"Handler.arpMutex"}, []string{"Handler.arpMutex"}, "written by Close, read by loops"},
 	{"icmp_spoofer", "Handler6", "huntList", []string{"Handler6.Mutex"}, []string{"Handler6.Mutex"}, "hunt list"},
